@@ -46,6 +46,9 @@ func genIP6(r *Rng) net.IP {
 		ip := make(net.IP, 16)
 		ip[0], ip[1] = 0xfe, 0x80
 		copy(ip[8:], r.Bytes(8))
+		if r.Bool() {
+			ip[11], ip[12] = 0xff, 0xfe // an EUI-64 interface identifier (MAC extraction reads it)
+		}
 		return ip
 	default:
 		return net.IP(r.Bytes(16))
